@@ -108,6 +108,24 @@ func valueCases(r *core.Run, fn *ssa.Function, v ssa.Value, blk, edge *ssa.Basic
 			return out
 		}
 	}
+	// one result of a tuple-returning method of the same reader (v, _ := r.ReadByte()): the corresponding result of
+	// each of its returns
+	if ex, ok := sv.(*ssa.Extract); ok && depth < 4 {
+		if c, isCall := ex.Tuple.(*ssa.Call); isCall && !c.Call.IsInvoke() {
+			h := c.Call.StaticCallee()
+			if h != nil && fnPkg(h) != nil && core.InModule(fnPkg(h)) && len(h.Blocks) > 0 && h.Signature.Recv() != nil && fn.Signature.Recv() != nil && recvName(h) == recvName(fn) && h != fn {
+				var out []layCase
+				for _, b := range h.Blocks {
+					if ret, isRet := lastInstr(b).(*ssa.Return); isRet && ex.Index < len(ret.Results) {
+						out = append(out, valueCases(r, h, ret.Results[ex.Index], b, nil, ret.Pos(), append(append([]*ssa.Call{}, via...), c), depth+1)...)
+					}
+				}
+				if len(out) > 0 {
+					return out
+				}
+			}
+		}
+	}
 	m := map[int64]int64{}
 	var data ssa.Value
 	var loads []*ssa.IndexAddr
@@ -474,6 +492,12 @@ func layoutReaders(r *core.Run) int {
 			}
 			key := tc.name + " short-read guard"
 			if c.fn != fn {
+				// the zero is produced inside a helper that reads the bytes itself (v, _ := r.ReadByte()): judged in the
+				// helper's own frame, where the read and its length test are
+				if ok, _ := zeroOnlyWhenShort(c.fn, c, tc.width); ok {
+					r.OK(key, c.pos, "in helper "+c.fn.Name())
+					continue
+				}
 				r.Unknown(key, c.pos, "zero is produced inside helper "+c.fn.Name()+": not modelled")
 				continue
 			}
